@@ -612,7 +612,8 @@ def run_case(prop, case):
     sample = {"tensors": len(inputs), "methods": case["methods"], "minimize": case["minimize"], "post": case["post"],
               "pool": case["pool"], "max_repeats": case["max_repeats"], "max_time": case["max_time"],
               "optlib": case["optlib"], "fault": case["fault"],
-              "completion_order": (pool.completion_order if pool is not None else "serial")}
+              "completion_order": (pool.completion_order if pool is not None else "serial"),
+              "interesting": pool is not None and pool.stats["out_of_order"] > 0 and case["fault"]["rate"] > 0}
     return {"violations": violations, "digest": log.digest(), "counters": dict(counters), "faults": dict(faults),
             "states": list(states), "sim_seconds": sim["clk"].now, "nontrivial": total_trials >= 2, "sample": sample}
 
